@@ -641,9 +641,27 @@ func VerifC05DiskGapReload() {
 	w1.Start()
 	w1.Wait(ctx)
 	stream = append(stream, a1...)
-	skip := verifRange("skip", 0, 2) // 0: the replacement continues seamlessly
-	stream = append(stream, verifBytes("uncached", skip)...)
+	// 0: the replacement continues seamlessly; > 0: a gap on disk; < 0: the replacement starts inside what is
+	// already cached (the same history re-joined at an earlier offset: the bytes are the same)
+	skip := verifRange("skip", -verifParam("OVERLAP", 0), 2)
 	c2, a2 := verifChunks("b", 1, C)
+	if skip > 0 {
+		stream = append(stream, verifBytes("uncached", skip)...)
+	} else if skip < 0 {
+		if -skip > len(stream) {
+			skip = -len(stream)
+		}
+		cut := len(stream) + skip
+		for i := 0; i < -skip && i < len(a2); i++ {
+			verifAssume(a2[i] == stream[cut+i])
+		}
+		if len(a2) < -skip {
+			// the replacement ends inside the old data: what lies behind it stays what it was
+			a2 = append(append([]byte{}, a2...), stream[cut+len(a2):]...)
+		}
+		stream = stream[:cut]
+		verifCover(true, "c05.disk.overlap")
+	}
 	w2, err := s.GetAofWritter(&verifSrc{chunks: c2}, base+int64(len(stream)))
 	verifAssert(err == nil, "C05.disk.new-aof-writer")
 	w2.Start()
